@@ -200,6 +200,7 @@ def run(ctx):
             continue
         seen.add(key)
         small = shrink(h, ctx, o)
+        why = oracle(small) or why
         if ctx.finding(key, why, {"case": {"eps": small["eps"], "policy": small["policy"], "mode": small["mode"]}, "observation": small,
                                   "how": "go/cmd/endpointharness -cases <file with the 'case' object on one line>: opcua.SelectEndpoint(eps, policy, mode); ./check C24 --replay <this file>"}):
             new += 1
